@@ -250,5 +250,11 @@ theorem checkerAfter_skeletons : Skeletons.CheckerAfterShape := Skeletons.checke
 theorem patternEval_skeletons : Skeletons.PatternEvalShape := Skeletons.patternEval_shape
 theorem optBefore_skeletons : Skeletons.OptBeforeShape := Skeletons.optBefore_shape
 theorem optAfter_skeletons : Skeletons.OptAfterShape := Skeletons.optAfter_shape
+theorem f_checker_checker_skeletons : Skeletons.F_checker_checkerShape := Skeletons.f_checker_checker_shape
+theorem f_runtime_runtime_skeletons : Skeletons.F_runtime_runtimeShape := Skeletons.f_runtime_runtime_shape
+theorem f_symbol_symtab_skeletons : Skeletons.F_symbol_symtabShape := Skeletons.f_symbol_symtab_shape
+theorem f_ast_ast_skeletons : Skeletons.F_ast_astShape := Skeletons.f_ast_ast_shape
+theorem f_ast_walk_skeletons : Skeletons.F_ast_walkShape := Skeletons.f_ast_walk_shape
+theorem f_position_position_skeletons : Skeletons.F_position_positionShape := Skeletons.f_position_position_shape
 
 end MtailVerif.C24
